@@ -291,6 +291,15 @@ class Eraser(ast.NodeTransformer):
         return n
 
 
+def strip_trailing_return_none(fn):
+    """R10: `return None` as the last statement of a function body  ~  falling off the end (Language Reference 7.6 / 8.7)."""
+    fn = copy.deepcopy(fn)
+    b = fn.body
+    if b and isinstance(b[-1], ast.Return) and (b[-1].value is None or (isinstance(b[-1].value, ast.Constant) and b[-1].value.value is None)):
+        fn.body = b[:-1] or [ast.Pass()]
+    return fn
+
+
 def erase(node_or_list, free_vars=(), param_names=()):
     """Returns (erased, problems)."""
     e = Eraser(free_vars, param_names)
